@@ -1,4 +1,5 @@
 import Driver.Sexp
+import Driver.C08
 import Driver.C10
 import Driver.C11
 import Driver.C12
@@ -16,6 +17,7 @@ def echo (args : List Sx) : Option Sx := some (.list args)
 /-- every `Driver/Cxx.lean` contributes a `handle : String → List Sx → Option Sx` -/
 def dispatch (op : String) (args : List Sx) : Option Sx :=
   if op == "echo" then echo args
+  else if op.startsWith "c08." then C08.handle op args
   else if op.startsWith "c10." then C10.handle op args
   else if op.startsWith "c11." then C11.handle op args
   else if op.startsWith "c12." then C12.handle op args
